@@ -607,6 +607,7 @@ func propC05(c *Ctx) {
 	c.ruleResponseCodeGate("C05-RESPONSE-CODE-GATE")
 	c.ruleJsightFirst() // the catalog's jsight version is only ever set by a JSIGHT directive, which must be there and first
 	c.ruleLoopsCoverAll("C05-LOOPS-COVER-ALL")
+	c.rulePathVerbatim("C05-PATH-VERBATIM")
 	c.ruleLoopFlags("C05-LOOP-FLAG")
 }
 
@@ -1289,5 +1290,97 @@ func (c *Ctx) ruleValidatorsComplete() {
 		} else {
 			r.Bad("C05-VALIDATORS", "JSIGHT version", "the JSIGHT handler does not compare the version with the constant \"0.3\"", c.pos(f.Decl.Pos()))
 		}
+	}
+}
+
+// ---------- a path is parsed as it is written ----------
+
+// rulePathVerbatim: the parameters of a path are looked for in several places (when the directive is checked, when the
+// pieces of path variables are registered, when they are put into the catalog). All of them must see the same string:
+// the path as the directive gives it. A caller that first rewrites the string (cleans it, folds its case, trims it)
+// finds other parameters than the others do, and a parameter registered under one spelling is not found under the
+// other.
+func (c *Ctx) rulePathVerbatim(rule string) {
+	r := c.R
+	r.Rule(rule, "every call of the path parsers of package core (pathParameters, splitPath) passes the path as it came: an unassigned parameter of the caller, the Path()/String() of a directive or catalog value, or a plain conversion of one - never the result of another string function (path.Clean, strings.ToLower, Trim...): all consumers must split the same string", 3)
+	var parsers []*types.Func
+	for _, name := range []string{"pathParameters", "splitPath"} {
+		if f := c.P.LookupFunc("core", name); f != nil {
+			parsers = append(parsers, f)
+		}
+	}
+	if len(parsers) == 0 {
+		r.Undecided(rule, "anchor", "core.pathParameters / core.splitPath not found", "")
+		return
+	}
+	var verbatim func(f *Fn, e ast.Expr, depth int) bool
+	verbatim = func(f *Fn, e ast.Expr, depth int) bool {
+		e = ast.Unparen(e)
+		if depth > 4 {
+			return false
+		}
+		switch x := e.(type) {
+		case *ast.Ident:
+			if paramIndexOf(f, x) >= 0 {
+				return !paramAssigned(f, x)
+			}
+			if d := soleDef(f, x); d != nil {
+				return verbatim(f, d, depth+1)
+			}
+			if dc, _ := definingCall(f, x); dc != nil {
+				return verbatim(f, dc, depth+1)
+			}
+			return false
+		case *ast.CallExpr:
+			if tv, ok := f.Pkg.TypesInfo.Types[x.Fun]; ok && tv.IsType() && len(x.Args) == 1 {
+				return verbatim(f, x.Args[0], depth+1) // conversion
+			}
+			cal := callee(f.Pkg, x)
+			if cal == nil || !c.P.IsLibPkg(cal.Pkg()) {
+				return false
+			}
+			if sig := cal.Type().(*types.Signature); sig.Recv() != nil && (cal.Name() == "Path" || cal.Name() == "String") && len(x.Args) == 0 {
+				if sel, ok := ast.Unparen(x.Fun).(*ast.SelectorExpr); ok {
+					if inner, isCall := ast.Unparen(sel.X).(*ast.CallExpr); isCall {
+						return verbatim(f, inner, depth+1)
+					}
+				}
+				return true
+			}
+			return false
+		case *ast.SelectorExpr:
+			return fieldSel(f.Pkg, x) != nil
+		}
+		return false
+	}
+	n := 0
+	for _, f := range c.libFns() {
+		ast.Inspect(f.Decl.Body, func(nd ast.Node) bool {
+			call, ok := nd.(*ast.CallExpr)
+			if !ok || len(call.Args) != 1 {
+				return true
+			}
+			cal := callee(f.Pkg, call)
+			is := false
+			for _, p := range parsers {
+				if cal == p {
+					is = true
+				}
+			}
+			if !is {
+				return true
+			}
+			n++
+			key := fmt.Sprintf("%s | %s(%s)", f.Name(), cal.Name(), exprString(call.Args[0]))
+			if verbatim(f, call.Args[0], 0) {
+				r.Ok(rule, key, "the path as it came", c.pos(call.Pos()))
+			} else {
+				r.Bad(rule, key, "the string that is split is not the path as written but the result of "+exprString(call.Args[0])+": this consumer sees other segments and parameters than the others, so a parameter checked or registered here is looked up elsewhere under another path", c.pos(call.Pos()))
+			}
+			return true
+		})
+	}
+	if n < 3 {
+		r.Undecided(rule, "sites", fmt.Sprintf("%d calls of the path parsers found", n), "")
 	}
 }
